@@ -8,6 +8,7 @@ claimed = {
  "C01": ("5.C01", "SubRip: read(render(model)) = model for 0..2 cues with symbolic ms times in [0,100h), 1..2 lines from a corpus of 8 marked-up/escaped texts (bold/italic/underline/font colour, &amp; &lt; &nbsp;, multi-byte runes), 12/48 rendering profiles cycling EOL kind, BOM, index numeric/absent/garbage, 1..3 blank lines, 0..3 at EOF, ',' or '.', 1..3 fraction digits, arrow spacing, trailing coordinates; write -> independent byte-level decoder and write -> library reader for 1..2 cues with symbolic ns times in each of the 24 digit-shape classes; escaping lemma unescape(escape(s)) = s for all strings of up to 4/5 bytes over the entity alphabet. The markup tokenizer (x/net/html) runs natively on the concrete corpus texts and is not encoded."),
  "C02": ("5.C02", "WebVTT: read(render(model)) = model for 0..2 cues (symbolic ms times, hours optional), 0..2 regions with attribute subsets, optional STYLE block and X-TIMESTAMP-MAP (symbolic LOCAL and MPEGTS), NOTE comments, ids, settings subsets, tab/space, header trailing text, EOL kinds, BOM over 12/48 profiles; text lines from a corpus of 8 (voice, nested tags with classes/annotation, inline timestamps, entities); write -> read for 1..2 cues with symbolic ns times per digit-shape class incl. consecutive numbering and region-defined-before-use; timestamp-map offset formula. Tag reading (x/net/html, regexp) runs natively on the concrete corpus."),
  "C04": ("5.C04", "SSA/ASS: style rows under 12/60 Format lines (permuted subsets of 13 representative columns incl. Name position, v4/v4+ spelling) with symbolic values - booleans, 8 symbolic hex digits, decimal colours of every length, ints, small decimals: each attribute equals the value in its column, absent columns stay unset; Dialogue rows under 10/40 event Format permutations with symbolic H:MM:SS.cc / HH:MM:SS.cc digits, Marked/Layer, margins, '*'-prefixed style refs, commas in text, \\N/\\n lines and {..} runs, junk/comment/Picture lines and unknown sections ignored; write -> read -> write for 24/48 shapes (heterogeneous style attribute sets, 1..2 cues with symbolic ns times, multi-run lines): attributes (true booleans), cs-truncated times, script info, byte-identical second write."),
+ "C05": ("5.C05", "EBU STL: for every byte of the Latin code table (symbolic byte, table lookups decided by the solver) encode(decode(b)) = b, and for every diacritic x letter pair (two symbolic bytes) read composes and write decomposes to the same two bytes; write -> read for 12/36 shapes (open subtitling: frame rate 25/30, symbolic justification and vertical position, 1..2 cues, 1..2 rows, italic/underline runs, Latin-repertoire texts, 11 GSI metadata fields, block sizes 1024+128n); reader: symbolic time-code-in m:s:f at 25/30 fps minus programme start unless ignored, user-data blocks skipped. Teletext display standards: write -> read is a known finding (text not boxed). Timecode arithmetic itself: C16."),
  "C09": ("5.C09", "All cue lists of 0..3 (quick) / 0..5 (thorough) cues in any order/overlap with 0<=start<=end<2^47 ns and every shift d in [-2^47,2^47] (64-bit bit-vectors, exact wrap-around): survivors, clamping, removal, identity/order, and the inverse shift are decided by the solver on every feasible path of the real Add."),
  "C10": ("5.C10", "Fragment on every start-ordered list of 1..2/1..3 cues (overlaps, nesting, duplicates allowed) and 1..3/1..4 overlap-free cues, period f in [1,2^40] ns symbolic, all ends <= K*f (K=3/4 windows): no piece strictly contains a multiple of f, output start-ordered, pieces are exactly the consecutive cuts of each original carrying its text/style/region, uncut cues keep identity. Symbolic division by f handled by quotient case-split."),
  "C11": ("5.C11", "Unfragment on every list of 1..3/1..4 cues (any order, overlaps, 2/3 text classes incl. same text spread over two runs) with symbolic times: ordered, no same-text cues touch/overlap, same texts on screen at a fresh symbolic instant, isolated cues untouched; inverse law Unfragment(Fragment(L,f)) restores L for 1..2/1..3 cues, f symbolic, 3 windows."),
@@ -23,7 +24,7 @@ claimed = {
 }
 wip = "check not built yet in this session (work in progress, see DESIGN.md section 9)"
 na = {
- "C03": wip, "C05": wip, "C06": wip, "C07": wip, "C08": wip,
+ "C03": wip, "C06": wip, "C07": wip, "C08": wip,
  
 }
 # allow overrides from a side file edited by later steps
